@@ -109,20 +109,21 @@ def h_testrequest(I):
 def h_heartbeat(I):
     """Heartbeat while a TestRequest is outstanding: same id clears it, wrong id ends the session
     with a Logout, no id is an ordinary interval heartbeat."""
-    install_loop(VClock(T0 + 50))
+    B = 1000  # small clock values keep the decimal conversions cheap; the comparison is what matters
+    install_loop(VClock(B + 50))
     nin = I.int("next_in", 1, 99)
     c = mkconn(CS.ACTIVE, ConnectionRole.INITIATOR, nin, I.int("next_out", 1, 99))
     outstanding = I.bool("outstanding")
-    sent_id = I.int("sent_id", T0, T0 + 99)
+    sent_id = I.int("sent_id", B, B + 99)
     if outstanding:
         c._test_req_id = sent_id
     mode = I.choice("echo_mode", 3)  # 0: no TestReqID, 1: numeric id, 2: non-numeric text
     extra = {}
     if mode == 1:
-        echoed = I.int("echoed_id", T0 - 5, T0 + 105)
+        echoed = I.int("echoed_id", B - 5, B + 105)
         extra = {112: str(echoed)}
     elif mode == 2:
-        extra = {112: I.str("echoed_text", 1, 2, 58, 126)}
+        extra = {112: I.fstr("echoed_text", 1, 58, 126)}
     w = c._socket_writer
     run(c._process_message(inbound("0", nin, extra), raw_for("0", nin)))
     disc = c._connection_state <= CS.DISCONNECTED_BROKEN_CONN
@@ -165,9 +166,9 @@ def h_scenario(I, P, peer):
         # peer activity at this instant (before the tick)
         if peer != "dead" and c._connection_state == CS.ACTIVE:
             if peer == "chatty":
-                send_now = I.bool(f"traffic{k}") or (k - last_traffic >= P - 2)
+                send_now = (k - last_traffic >= max(1, P - 2)) or I.bool(f"traffic{k}")
             else:
-                send_now = I.bool(f"traffic{k}")
+                send_now = False  # a responsive peer here only answers TestRequests
             if answer_due is not None and k >= answer_due[0]:
                 run(c._process_message(inbound("0", nin, {112: str(answer_due[1])}), raw_for("0", nin)))
                 nin += 1
@@ -213,7 +214,7 @@ def cells(tier):
         out.append(Cell(f"tick/{st}", (lambda I, st=st: h_tick(I, st)), dict(tb, state=st), goals=["inactive"]))
     out.append(Cell("inbound-testrequest", h_testrequest, dict(test_req_id="symbolic 1..3 printable chars", msg_seq_num="expected or one above",
                                                                state="ACTIVE / RESENDREQ_AWAITING"), goals=["echo"]))
-    out.append(Cell("inbound-heartbeat", h_heartbeat, dict(outstanding="symbolic", sent_id="symbolic", echoed="absent / symbolic number / symbolic text"),
+    out.append(Cell("inbound-heartbeat", h_heartbeat, dict(outstanding="symbolic", sent_id="symbolic", echoed="absent / symbolic number / symbolic 1-char text"),
                     goals=["wrong-id", "answered"]))
     for P in ((2, 3) if quick else (2, 3, 4, 5)):
         for peer in ("dead", "responsive", "chatty"):
